@@ -67,9 +67,13 @@ def arbeitsl_geld_2_nettoeink_nach_abzug_freibetrag_m(
     Income after taxes, social insurance contributions, and other deductions.
 
     """
-    return (
+    # A negative income (e.g., a rental loss, or half of the spouse's income tax assigned
+    # to a person without own income) must not increase the benefit beyond the assessed
+    # need; same treatment as in `grunds_im_alter_eink_m`.
+    return max(
         arbeitsl_geld_2_nettoeink_vor_abzug_freibetrag_m
-        - arbeitsl_geld_2_eink_anr_frei_m
+        - arbeitsl_geld_2_eink_anr_frei_m,
+        0.0,
     )
 
 
